@@ -82,11 +82,12 @@ var programs = map[string]func() *progs.Prog{
 	"maponly-3":       func() *progs.Prog { return progs.MapOnly(3) },
 	"policies":        func() *progs.Prog { return progs.Policies() },
 	"emptymap-1":      func() *progs.Prog { return progs.EmptyMap(1) },
+	"sinedeltas-1":    func() *progs.Prog { return progs.SineDeltas(1) },
 	"chain-0":         func() *progs.Prog { return progs.Chain(0) },
 	"index2":          func() *progs.Prog { return progs.Index2() },
 }
 
-var quickPrograms = []string{"storemap-2-3", "storemap-7-4", "twostages-1-4-6", "samestage-1-7-3", "index", "clocksparse-2", "clocksparse2-2", "policies", "emptymap-1", "chain-0", "index2"}
+var quickPrograms = []string{"storemap-2-3", "storemap-7-4", "sinedeltas-1", "samestage-6-2-9", "twostages-1-4-6", "samestage-1-7-3", "index", "clocksparse-2", "clocksparse2-2", "policies", "emptymap-1", "chain-0", "index2"}
 
 var runs, jobs int64
 
